@@ -1,7 +1,8 @@
 CONSTANTS
-  G = 3
-  Ws = {1, 2, 3}
+  G = 2
+  Ws = {1, 2, 3, 4, 5}
   D <- DQuick
+  Als = {0, 1, 2}
   HasFill = FALSE
 SPECIFICATION Spec
 INVARIANTS RowInsideBox Equivariant RowsOrdered NoRowLost OutlineIsThreeLines
